@@ -829,6 +829,18 @@ def run(ctx, rep):
         if fq is not None and fq.qual == fo.qual:
             base = d[:-len("._config")]
             okb = base in aliases
+            if okb and base != oprm[1]:
+                # reached through a field: on every path to this statement the field has been (re)bound to the parameter - a
+                # guarded store (`if self._conn is None: self._conn = conn`) leaves an earlier connection in the field
+                gfo = ctx.cfg(fo)
+                stores = {x.id for x in gfo.live if x.ast is not None and x.kind == "stmt" and isinstance(x.ast, ast.Assign) and
+                          any(A.dotted(t) == base for t in x.ast.targets) and isinstance(x.ast.value, ast.Name) and
+                          x.ast.value.id == oprm[1]}
+                here = [x for x in gfo.live if x.ast is not None and x.kind in ("stmt", "test") and A.contains(x.ast, n)]
+                okb = bool(stores) and bool(here) and all(
+                    Q.find_path_ef([gfo.entry], lambda y, h=h_: y is h, lambda a, b, l: b.id not in stores) is None for h_ in here)
+                if not okb:
+                    base = base + " (bound to the parameter only on some paths)"
             rep.ob("R06.7", "SlaveService.on_connect widens only the connection it was called for", okb,
                    "`%s._config.%s(...)` where %s aliases the `%s` parameter" % (base, how, base, oprm[1]) if okb else
                    "on_connect writes the configuration of `%s`, which is not the connection being set up" % base, ctx.loc(n))
